@@ -1,117 +1,209 @@
 """Ghost model of the binary trie (DESIGN 5.2), ideal-hash reading.
 
-A node hash h denotes the node unkeccak(h) (A-HASH: the hash determines its pre-image), so what a root means does
-not depend on the database; the database only decides which nodes are *available*.  Spec functions are
-uninterpreted and unfolded one step by the contracts at the (hash, key) pairs that occur -- the unfolding is their
-definition (structural recursion on the key), never an axiom schema the solver has to instantiate by itself.
+Nodes are an algebraic datatype; `dec` maps a node body (bytes) to the node it encodes (BBad if none).  dec is
+*opaque* in the trie-level obligations: they use only `dec(encode_x_node(..)) = constructor(..)`, which is proved
+from dec's definition and the byte-level contracts of the encoders (lemma dec_of_encodings), and
+`parse_node(n)` = the components of dec(n) (definition of dec).  A node hash h denotes nd(h) = dec(unkeccak(h))
+(A-HASH: the hash determines its pre-image), so what a root means does not depend on the database; the database only
+decides which nodes are available.
 
-  blk(h, k)    value stored under bit path k below h (PNone = absent)
+Spec functions are uninterpreted and unfolded one step by the contracts at the (hash, key) pairs that occur -- the
+unfolding is their definition (structural recursion on the key).
+
+  blk(h, k)        value stored under bit path k below h (PNone = absent)
   bavail(H, h, k)  every node a lookup of k below h dereferences is in the availability set H
-  bpre(h, k)   some stored key below h starts with k
 """
 import z3
 
 from pyvc import ops, specfn
-from pyvc.sym import SSeq, SBool, PyVal, SeqI, BoolS, IntS, mk_bool, seq_const
-from contracts.binaries_c import KPD, kp_ok, allbit
+from pyvc.sym import SSeq, SBool, PyVal, SeqI, BoolS, IntS, mk_bool, mk_int, seq_const
+from contracts.binaries_c import KPD, KPE, kp_ok, allbit
 
+_B = z3.Datatype("BNode")
+_B.declare("BBad")
+_B.declare("BLeaf", ("bval", SeqI))
+_B.declare("BKV", ("bpath", SeqI), ("bchild", SeqI))
+_B.declare("BBranch", ("bleft", SeqI), ("bright", SeqI))
+BNode = _B.create()
+
+dec = z3.Function("bdec", SeqI, BNode)
 blk = z3.Function("blk", SeqI, SeqI, PyVal)
 bavail = z3.Function("bavail", z3.ArraySort(SeqI, BoolS), SeqI, SeqI, BoolS)
-bpre = z3.Function("bpre", SeqI, SeqI, BoolS)
 unk = specfn.unkeccak
+
+
+def nd(h):
+    return dec(unk(h))
 
 
 def blank_hash(E):
     return seq_const(E.loader.load("trie.constants").ns["BLANK_HASH"])
 
 
-class Parts:
-    """the pieces parse_node returns for the node body n (same expressions as its contract)"""
-
-    def __init__(self, n):
-        self.n = n
-        self.ln = z3.Length(n)
-        self.ty = n[0]
-        self.left = z3.Extract(n, 1, 32)
-        self.right = z3.Extract(n, 33, 32)
-        self.keyenc = z3.Extract(n, 1, self.ln - 33)
-        self.path = KPD(self.keyenc)
-        self.child = z3.Extract(n, self.ln - 32, 32)
-        self.val = z3.Extract(n, 1, self.ln - 1)
+def dec_definition(n):
+    """definition of dec on a node body n, in terms of the pieces parse_node's byte-level contract returns"""
+    ln = z3.Length(n)
+    ty = n[0]
+    keyenc = z3.Extract(n, 1, ln - 33)
+    return z3.If(z3.And(ln >= 1, ty == 1, ln == 65), BNode.BBranch(z3.Extract(n, 1, 32), z3.Extract(n, 33, 32)),
+                 z3.If(z3.And(ln >= 1, ty == 0, ln > 33, kp_ok(keyenc)), BNode.BKV(KPD(keyenc), z3.Extract(n, ln - 32, 32)),
+                       z3.If(z3.And(ln > 1, ty == 2), BNode.BLeaf(z3.Extract(n, 1, ln - 1)), BNode.BBad)))
 
 
-def wfnode(n):
-    """a well-formed node body (what the three encoders produce)"""
-    p = Parts(n)
-    return z3.And(p.ln >= 1,
-                  z3.Or(z3.And(p.ty == 1, p.ln == 65),
-                        z3.And(p.ty == 2, p.ln > 1),
-                        z3.And(p.ty == 0, p.ln > 33, kp_ok(p.keyenc), z3.Length(p.path) > 0, allbit(p.path))))
+def wf(D, B):
+    """well-formed (and locally canonical) node: what the trie writes"""
+    return z3.Or(
+        z3.And(BNode.is_BLeaf(D), z3.Length(BNode.bval(D)) > 0),
+        z3.And(BNode.is_BKV(D), z3.Length(BNode.bpath(D)) > 0, allbit(BNode.bpath(D)),
+               z3.Length(BNode.bchild(D)) == 32, BNode.bchild(D) != B),
+        z3.And(BNode.is_BBranch(D), z3.Length(BNode.bleft(D)) == 32, z3.Length(BNode.bright(D)) == 32,
+               BNode.bleft(D) != B, BNode.bright(D) != B))
 
 
 def tail(k, n):
-    return z3.Extract(k, n, z3.Length(k) - n)
+    return z3.simplify(z3.Extract(k, n, z3.Length(k) - n))
 
 
 def starts_with(k, p):
     """k[:len(p)] == p, written with the slicing function the interpreter uses"""
-    return ops.seq_slice(SSeq(k, "bytes", "int"), None, SSeq_len(p)).t == p
+    return ops.seq_slice(SSeq(k, "bytes", "int"), None, mk_int(z3.Length(p))).t == p
 
 
-def SSeq_len(p):
-    from pyvc.sym import mk_int
-    return mk_int(z3.Length(p))
+class Parts:
+    def __init__(self, D):
+        self.D = D
+        self.is_leaf, self.is_kv, self.is_branch = BNode.is_BLeaf(D), BNode.is_BKV(D), BNode.is_BBranch(D)
+        self.val, self.path, self.child = BNode.bval(D), BNode.bpath(D), BNode.bchild(D)
+        self.left, self.right = BNode.bleft(D), BNode.bright(D)
 
 
-def unfold_blk(E, h, k):
-    """one definitional step of blk at (h, k)"""
+def parts_of(E, h):
+    """Parts of the node denoted by h; for a node built on this path (h = keccak(e) with e produced by one of the
+    encoders) the pieces are the encoder's arguments themselves"""
+    h = z3.simplify(h)
+    if z3.is_app(h) and h.decl().eq(specfn.keccak):
+        rec = E.ghost.get("encoded", {}).get(h.arg(0).get_id())
+        if rec is not None:
+            p = Parts(dec(h.arg(0)))
+            kind = rec[0]
+            t, f = z3.BoolVal(True), z3.BoolVal(False)
+            p.is_leaf = t if kind == "leaf" else f
+            p.is_kv = t if kind == "kv" else f
+            p.is_branch = t if kind == "branch" else f
+            if kind == "leaf":
+                p.val = rec[1]
+            elif kind == "kv":
+                p.path, p.child = rec[1], rec[2]
+            else:
+                p.left, p.right = rec[1], rec[2]
+            return p
+        return Parts(dec(h.arg(0)))
+    return Parts(nd(h))
+
+
+def is_known_node(E, c):
+    c = z3.simplify(c)
+    if z3.is_app(c) and c.decl().eq(specfn.keccak):
+        return True
+    for o in E.ghost.get("opened", []):
+        if o.eq(c):
+            return True
+    return False
+
+
+def unfold_blk(E, h, k, depth=2):
+    """definitional step of blk at (h, k); then the view rules recorded by callee contracts are instantiated at the
+    lookup atoms that occur, and atoms over nodes built or opened on this path are unfolded in turn"""
+    h, k = z3.simplify(h), z3.simplify(k)
+    done = E.ghost.setdefault("blk_unfolded", [])
+    for (h2, k2) in done:
+        if h2.eq(h) and k2.eq(k):
+            return
+    done.append((h, k))
     B = blank_hash(E)
-    p = Parts(unk(h))
+    p = parts_of(E, h)
     lk = z3.Length(k)
+    kv_tail = z3.simplify(tail(k, z3.Length(p.path)))
+    br_tail = z3.simplify(tail(k, 1))
     body = z3.If(h == B, PyVal.PNone,
-                 z3.If(p.ty == 2, z3.If(lk == 0, PyVal.PBytes(p.val), PyVal.PNone),
-                       z3.If(p.ty == 0,
-                             z3.If(z3.And(lk > 0, starts_with(k, p.path)), blk(p.child, tail(k, z3.Length(p.path))),
-                                   PyVal.PNone),
-                             z3.If(lk == 0, PyVal.PNone,
-                                   z3.If(k[0] == 0, blk(p.left, tail(k, 1)), blk(p.right, tail(k, 1)))))))
+                 z3.If(p.is_leaf, z3.If(lk == 0, PyVal.PBytes(p.val), PyVal.PNone),
+                       z3.If(p.is_kv,
+                             z3.If(z3.And(lk > 0, starts_with(k, p.path)), blk(p.child, kv_tail), PyVal.PNone),
+                             z3.If(p.is_branch,
+                                   z3.If(lk == 0, PyVal.PNone, z3.If(k[0] == 0, blk(p.left, br_tail), blk(p.right, br_tail))),
+                                   PyVal.PNone))))
     E.assume(mk_bool(blk(h, k) == body))
+    decompose(E, k, p.path)
+    for (c, kk) in ((p.child, kv_tail), (p.left, br_tail), (p.right, br_tail)):
+        c = z3.simplify(c)
+        for (hr, fn, src) in E.ghost.get("view_rules", []):
+            # a rule relates the views of an old node `src` and of the node `hr` a callee returned for it; it is
+            # instantiated at kk when either of the two is looked up at kk
+            if hr.eq(c) or z3.simplify(src).eq(c):
+                E.assume(mk_bool(fn(kk)))
+                if depth > 0:
+                    unfold_blk(E, src, kk, depth - 1)
+                    unfold_blk(E, hr, kk, depth - 1)
+        if depth > 0 and is_known_node(E, c):
+            unfold_blk(E, c, kk, depth - 1)
+
+
+def decompose(E, k, path):
+    """valid facts about the key k that spare the sequence solver the work: a non-empty k is its head followed by
+    its tail, and a k that starts with `path` is `path` followed by the rest (prefix elimination, DESIGN 4.6)"""
+    done = E.ghost.setdefault("decomposed", [])
+    lk = z3.Length(k)
+    if not any(x.eq(k) for x in done):
+        done.append(k)
+        E.assume(mk_bool(z3.Implies(lk > 0, k == z3.Concat(z3.Unit(k[0]), tail(k, 1)))))
+        # definition of allbit on a non-empty sequence
+        E.assume(mk_bool(z3.Implies(z3.And(lk > 0, allbit(k)), z3.And(z3.Or(k[0] == 0, k[0] == 1), allbit(tail(k, 1))))))
+    key = z3.simplify(z3.Concat(k, path))
+    if not any(x.eq(key) for x in done):
+        done.append(key)
+        E.assume(mk_bool(z3.Implies(starts_with(k, path), k == z3.Concat(path, tail(k, z3.Length(path))))))
+        E.assume(mk_bool(z3.Implies(k == z3.Concat(path, tail(k, z3.Length(path))), starts_with(k, path))))
 
 
 def unfold_bavail(E, H, h, k):
     B = blank_hash(E)
-    p = Parts(unk(h))
+    p = parts_of(E, h)
     lk = z3.Length(k)
     body = z3.If(h == B, z3.BoolVal(True),
                  z3.And(z3.Select(H, h),
-                        z3.If(p.ty == 2, z3.BoolVal(True),
-                              z3.If(p.ty == 0,
-                                    z3.If(z3.And(lk > 0, starts_with(k, p.path)),
-                                          bavail(H, p.child, tail(k, z3.Length(p.path))), z3.BoolVal(True)),
-                                    z3.If(lk == 0, z3.BoolVal(True),
-                                          z3.If(k[0] == 0, bavail(H, p.left, tail(k, 1)),
-                                                bavail(H, p.right, tail(k, 1))))))))
+                        z3.If(p.is_kv,
+                              z3.If(z3.And(lk > 0, starts_with(k, p.path)),
+                                    bavail(H, p.child, tail(k, z3.Length(p.path))), z3.BoolVal(True)),
+                              z3.If(z3.And(p.is_branch, lk > 0),
+                                    z3.If(k[0] == 0, bavail(H, p.left, tail(k, 1)), bavail(H, p.right, tail(k, 1))),
+                                    z3.BoolVal(True)))))
     E.assume(mk_bool(bavail(H, h, k) == body))
 
 
 class BinDbInvariant:
-    """invariant of a binary-trie store: every entry is content-addressed and a well-formed node.
+    """invariant of a binary-trie store: every entry is content-addressed and encodes a well-formed node.
     Reading an entry yields these facts for that entry; every write must re-establish them (obligations)."""
 
     def on_read(self, E, d, kt, vt):
+        E.ghost.setdefault("opened", []).append(z3.simplify(kt))
         E.assume(mk_bool(vt == unk(kt)))
-        h = E.keccak(SSeq(vt, "bytes", "int"))
-        E.assume(mk_bool(h.t == kt))
-        E.assume(mk_bool(wfnode(vt)))
+        E.assume(mk_bool(specfn.keccak(unk(kt)) == kt))
+        E.assume(mk_bool(wf(nd(kt), blank_hash(E))))
+        return unk(kt)          # the value read *is* the denoted body: use that term (it equals vt by the first fact)
 
     def on_write(self, E, d, kt, vt):
+        # the invariant, instantiated at the key being written (an entry already there is content-addressed)
+        E.assume(mk_bool(z3.Implies(z3.Select(d.has, kt), z3.Select(d.val, kt) == unk(kt))))
         E.prove("store-write/content-addressed", mk_bool(kt == specfn.keccak(vt)), kind="frame",
                 detail="db[k] = v is executed with k = keccak(v)")
-        E.prove("store-write/well-formed-node", mk_bool(wfnode(vt)), kind="frame")
+        E.prove("store-write/well-formed-node", mk_bool(wf(dec(vt), blank_hash(E))), kind="frame")
+        E.prove("store-write/existing-entry-unchanged", mk_bool(z3.Implies(z3.Select(d.has, kt), z3.Select(d.val, kt) == vt)),
+                kind="frame", detail="a write to an existing key stores the value that is already there")
 
 
 def mk_trie(E):
     from contracts import objs
     t = objs.mk_binary(E)
     t.fields["db"].hooks = BinDbInvariant()
+    E.ghost["adt_nodes"] = True          # node encoders / parser are used through their datatype view
     return t
